@@ -69,6 +69,14 @@ class Run:
         if len(self.samples) < limit:
             self.samples.append(obj)
 
+    def is_known(self, descr: dict) -> bool:
+        """Count and report True if descr matches a listed known finding."""
+        for f in self._findings:
+            if all(descr.get(k) == v for k, v in f.get('match', {}).items()):
+                self.known_hits[f['id']] = self.known_hits.get(f['id'], 0) + 1
+                return True
+        return False
+
     def violation(self, descr: dict, what: str, replay_obj=None):
         """Report a property violation seen on the real code.
 
